@@ -509,3 +509,45 @@ def run_sdk_int_probe(name, body, v):
         return subs, None, list(conn.storage)
     except Exception as e:
         return None, type(e).__name__, None
+
+
+# ---- alternative spellings of integers in the text route -------------------------------------------
+
+_ARABIC = str.maketrans("0123456789", "٠١٢٣٤٥٦٧٨٩")
+_FULLWIDTH = str.maketrans("0123456789", "０１２３４５６７８９")
+
+
+def spellings(v):
+    """[(name, text)] alternative ways to write the integer v that a lenient parser might accept"""
+    sign, a = ("-" if v < 0 else ""), abs(v)
+    out = [("hex", sign + "0x%X" % a), ("hex-lower", sign + "0x%x" % a), ("HEX-prefix", sign + "0X%X" % a),
+           ("octal", sign + "0o%o" % a), ("binary", sign + "0b" + bin(a)[2:]), ("underscores", sign + f"{a:_}"),
+           ("plus", ("+" if v >= 0 else "-") + str(a)), ("leading-zeros", sign + "000" + str(a)),
+           ("exponent", sign + str(a) + "e0"), ("float", sign + str(a) + ".0"), ("tab-after", str(v) + "\t"),
+           ("arabic-indic-digits", sign + str(a).translate(_ARABIC)),
+           ("fullwidth-digits", sign + str(a).translate(_FULLWIDTH)),
+           ("c-octal", sign + "0" + "%o" % a), ("hex-h-suffix", sign + "%Xh" % a),
+           ("twos-complement-hex", "0x%X" % (v & 0xFFFFFFFF)) if -2 ** 31 <= v < 0 else ("hex-padded", sign + "0x0%X" % a)]
+    return out
+
+
+def render_operand_alt(oj, path, text):
+    """canonical rendering of the operand with the integer at `path` replaced by `text`"""
+    k, ix = path
+
+    def part(i, v):
+        return text if (ix == i or (ix is None and i is None)) else str(v)
+
+    def reg(bi, b, ii, i):
+        return BANKS[b] + part(ii, i)
+    if k == "r":
+        return reg(0, oj["r"][0], 1, oj["r"][1])
+    if k == "i":
+        return part(None, oj["i"])
+    if k == "a":
+        return "@" + part(None, oj["a"])
+    if k == "e":
+        a, b, i = oj["e"]
+        return "@%s[%s]" % (part(0, a), reg(1, b, 2, i))
+    a, b0, i0, b1, i1 = oj["s"]
+    return "@%s[%s:%s]" % (part(0, a), reg(1, b0, 2, i0), reg(3, b1, 4, i1))
